@@ -18,6 +18,7 @@ type Profile struct {
 	PfxSfx     bool
 	Regions    bool
 	RegionKind string // restrict regions to one kind
+	Effects    bool   // prints through vdefer / vacquire (C18)
 	KeepFmt    bool   // also generate keepFmt=true cases with newlines in text
 	Comments   bool
 	BreakN     bool
@@ -399,6 +400,12 @@ func (g *Gen) genPrint() *Ast {
 
 func (g *Gen) genMod() AMod {
 	r := g.r
+	if g.p.Effects && r.Chance(55) {
+		if r.Chance(65) {
+			return AMod{Name: "vdefer", Args: []AArg{{Lit: true, Text: g.newVar("t"), Quote: `"`}}}
+		}
+		return AMod{Name: "vacquire", Args: []AArg{{Lit: true, Text: []string{"pa", "pb"}[r.Intn(2)], Quote: `"`}}}
+	}
 	lit := func() AArg {
 		if r.Chance(50) {
 			return AArg{Lit: true, Text: []string{"dflt", "N/A", "x", "zero"}[r.Intn(4)], Quote: `"`}
@@ -747,6 +754,12 @@ func (g *Gen) genItem(depth int) *Ast {
 			}
 		}
 		return a
+	case "openregion":
+		// a bound tag that is never closed: the render stops inside an escape region
+		return &Ast{K: "openregion", Region: []string{"jsonquote", "htmlescape", "urlencode"}[r.Intn(3)]}
+	case "failing":
+		// a print that makes the render fail: a structure cannot be converted to text
+		return &Ast{K: "print", Path: []string{"user.Flags", "user"}[r.Intn(2)]}
 	case "exit":
 		if r.Chance(60) {
 			return &Ast{K: "if", Cond: g.genLoopCond(), Then: []*Ast{{K: "text", Text: g.marker()}, {K: "exit"}}}
